@@ -367,26 +367,45 @@ pub fn cmd_drive(args: &[String]) {
         let w = write_df(&df, version, &deflate);
         let probes = probes_for(&mut rng, &df);
         let mut b = w.bytes.clone();
+        // base flavour: the historic "crude" header of version 4 (size field does not count the
+        // data-size table; swaplen of either kind) -- the reader's third variant V4Crude. Every
+        // mutation below also runs on this flavour.
+        let crude = w.nd > 0 && rng.gen_range(0..4) == 0;
+        if crude {
+            let s = get_word(&b, 2) - 4 * w.nd as i32;
+            set_word(&mut b, 2, s);
+            if rng.gen_bool(0.5) {
+                let sl = get_word(&b, 3) - 4 * w.nd as i32;
+                set_word(&mut b, 3, sl);
+            }
+        }
+        let pre = if crude { "crude+" } else { "" };
         let m = rng.gen_range(0..20);
         match m {
-            0..=6 => out.event("none".into(), true, Some(&df), &w, &b, &probes),
+            0..=6 => {
+                if crude {
+                    out.event("crude".into(), false, None, &w, &b, &probes)
+                } else {
+                    out.event("none".into(), true, Some(&df), &w, &b, &probes)
+                }
+            }
             7 | 8 => {
                 let p = rng.gen_range(0..b.len());
-                out.event(format!("trunc:{}", p), false, None, &w, &b[..p], &probes);
+                out.event(format!("{}trunc:{}", pre, p), false, None, &w, &b[..p], &probes);
             }
             9..=11 => {
                 // one word of the integer area (header, tables, item headers and data words)
                 let k = rng.gen_range(1..w.int_words);
                 let x = boundary(&mut rng, get_word(&b, k));
                 set_word(&mut b, k, x);
-                out.event(format!("fuzz:w{}={}", k, x), false, None, &w, &b, &probes);
+                out.event(format!("{}fuzz:w{}={}", pre, k, x), false, None, &w, &b, &probes);
             }
             12 | 13 => {
                 // corrupt a byte of the data section (compressed blocks in version 4)
                 if b.len() > w.data_start {
                     let p = rng.gen_range(w.data_start..b.len());
                     b[p] ^= 1 << rng.gen_range(0..8);
-                    out.event(format!("dflip:{}", p), false, None, &w, &b, &probes);
+                    out.event(format!("{}dflip:{}", pre, p), false, None, &w, &b, &probes);
                 }
             }
             14 => {
@@ -394,17 +413,17 @@ pub fn cmd_drive(args: &[String]) {
                 if version == 4 && w.nd > 0 {
                     let k = w.dsizes_word + rng.gen_range(0..w.nd);
                     let orig = get_word(&b, k);
-                    let x = match rng.gen_range(0..7) {
+                    let x = match rng.gen_range(0..8) {
                         0 => 0,
                         1 => orig + 1,
                         2 => (orig - 1).max(0),
                         3 => orig * 2 + 7,
                         4 => 65536,
                         5 => i32::MAX,
-                        _ => 100_000_000,
+                        _ => [-1, i32::MIN, 100_000_000][rng.gen_range(0..3)],
                     };
                     set_word(&mut b, k, x);
-                    out.event(format!("dsize:w{}={}", k, x), false, None, &w, &b, &probes);
+                    out.event(format!("{}dsize:w{}={}", pre, k, x), false, None, &w, &b, &probes);
                 }
             }
             15 => {
@@ -412,22 +431,11 @@ pub fn cmd_drive(args: &[String]) {
                 for _ in 0..extra {
                     b.push(rng.gen());
                 }
-                out.event(format!("append:{}", extra), false, None, &w, &b, &probes);
+                out.event(format!("{}append:{}", pre, extra), false, None, &w, &b, &probes);
             }
             16 => {
-                // historic "crude" version 4 size field (data sizes not counted), or reversed magic
-                if version == 4 && w.nd > 0 && rng.gen_bool(0.7) {
-                    let s = get_word(&b, 2) - 4 * w.nd as i32;
-                    set_word(&mut b, 2, s);
-                    if rng.gen_bool(0.5) {
-                        let sl = get_word(&b, 3) - 4 * w.nd as i32;
-                        set_word(&mut b, 3, sl);
-                    }
-                    out.event("crude".into(), false, None, &w, &b, &probes);
-                } else {
-                    b[..4].copy_from_slice(b"ATAD");
-                    out.event("atad".into(), false, None, &w, &b, &probes);
-                }
+                b[..4].copy_from_slice(b"ATAD");
+                out.event(format!("{}atad", pre), false, None, &w, &b, &probes);
             }
             17 => {
                 // several words fuzzed at once
@@ -437,7 +445,7 @@ pub fn cmd_drive(args: &[String]) {
                     let x = boundary(&mut rng, get_word(&b, k));
                     set_word(&mut b, k, x);
                 }
-                out.event(format!("fuzz{}", cnt), false, None, &w, &b, &probes);
+                out.event(format!("{}fuzz{}", pre, cnt), false, None, &w, &b, &probes);
             }
             _ => {
                 // random bytes, optionally behind a plausible header
